@@ -10,6 +10,9 @@ L1  model vs code, compared inside Coq: recognise(body) vs what convert-linalg-t
     equivalent_region(k, tys) vs the body convert-kernel-to-linalg produces; rescale_region(p) vs the body
     LowerRescale produces; dispatch(accs, k, tys) vs the library_call DispatchTemplatePattern sets (on the
     real accelerator tables and on random tables).
+    Also: expand_kbody(kb) vs what convert-kernel-to-linalg makes of kernel ops with arbitrary wiring (permuted /
+    duplicated operands, extra block arguments, bodies that yield a block argument); rescale_region_for 32 vs the
+    expansion of kernel.rescale (i32) -> i32; golden_rescale vs the numpy golden model (in the L2 cases file).
 L2  the property on the real output, no model of the passes: the real body before recognition and the real
     body after expansion are evaluated by the Coq fixed-width evaluator on extreme and random scalars and
     compared with the kernel's arithmetic formula; a dispatched kernel must be declared (checked on the
@@ -26,17 +29,20 @@ import vlib
 from vlib import coqlist, zlit
 
 PROPERTY = "C18"
-MODEL_TARGETS = ["Model/C18Kernel.vo"]
+MODEL_TARGETS = ["Model/C18Kernel.vo", "Model/C18Wiring.vo"]
 RULE = ("linalg.generic bodies over arith.addi/muli/subi/extsi with 1-4 inputs + 1 output of widths 8/16/32/64: "
         "exhaustive for <= 2 ops over the listed type configurations (<= 3 in thorough), random typed DAGs up to 6 ops, "
         "and near misses of every kernel region (operands swapped / rewired, kind changed, other value yielded, "
         "dead op inserted, extsi order changed); scalar inputs: min, max, -1, 0, 1 of each width + random; "
-        "dispatch: the real snax_alu/snax_gemmx tables and random accelerator tables; rescale: random parameter "
+        "kernel ops with arbitrary wiring: every kernel/width configuration canonically wired plus random permuted / duplicated "
+        "operands of matching type, 0-2 extra block arguments, yield of the kernel result or of a block argument of the output type; "
+        "dispatch: the real snax_alu/snax_gemmx tables and random accelerator tables (12 % of the entries with a mis-declared "
+        "number of types); rescale (i32)->i8 and (i32)->i32: random parameter "
         "sets incl. double rounding and extreme inputs. Non-trivial = recognised / expanded / dispatched cases; "
         "distinct = distinct bodies / parameter sets")
 TRUSTED_BASE = [
     "Coq 8.16.1 kernel + vm_compute (no native_compute)",
-    "hand models coq/Model/C18FixedWidth.v, coq/Model/C18Kernel.v, tied by L1/L2 (this harness)",
+    "hand models coq/Model/C18FixedWidth.v, coq/Model/C18Kernel.v, coq/Model/C18Wiring.v, tied by L1/L2 (this harness)",
     "harness/props/c18.py: xDSL body -> abstract body converter (structural), generators, Coq-literal printer; harness/xdsl_compat.py",
     "xDSL 0.70 parser/rewriter and arith op constructors (result type of a binary op = type of its first operand); numpy (golden model)",
 ]
@@ -44,13 +50,17 @@ ASSUMPTIONS = [
     "scalars are signed representatives in Z; arith.extsi keeps the representative (valid for in-range operands of verified IR)",
     "recognise_sound_typed assumes the recognised body is valid IR (body_typed: equal operand types for add/mul/sub, widening extsi, yielded type = output type); L1 checks body_typed on every verified generated body",
     "arith overflow flags / poison are not modelled; only add/mul/sub/extsi (+ trunci/shrsi/minsi/maxsi for the rescale expansion)",
+    "integer types are modelled by their widths (signedness ignored); operands of a kernel op are block arguments of the linalg body (captured outer values are not modelled)",
+    "class rescale_not_safe: rescale_safe is the Coq predicate of the theorem; whether the channels carry different parameters is decided in Python (the Coq rparams hold channel 0 only)",
     "the '_stream' suffix of library_call (static shapes on a streamer accelerator) is not modelled; only the chosen accelerator",
     "golden model of the rescale = util/gemmx/simd_golden_model.py on an int64 input array (numpy semantics modelled by hand: int32 casts wrap)",
 ]
 
 WIDTHS = [8, 16, 32, 64]
+# witness of the known finding F-C18-3 (class rescale_result_not_i8): kernel.rescale (i32) -> i32, clamp +-1000
+W32 = {"params": dict(zp_in=0, zp_out=0, mults=[1], shifts=[1], max=1000, min=-1000, dr=False), "x": 600, "outw": 32}
 KNAMES = {"kernel.mul": "KMulK", "kernel.add": "KAddK", "kernel.mac": "KMacK", "kernel.qmac": "KQMacK", "kernel.rescale": "KRescaleK"}
-HEADER = "From Snax Require Import Base.Prelude Model.C18FixedWidth Model.C18Kernel.\nLocal Open Scope nat_scope.\n"
+HEADER = "From Snax Require Import Base.Prelude Model.C18FixedWidth Model.C18Kernel Model.C18Wiring.\nLocal Open Scope nat_scope.\n"
 
 
 class Unsupported(Exception):
@@ -349,25 +359,38 @@ def generics(mod):
     return [o for o in mod.walk() if isinstance(o, linalg.GenericOp)]
 
 
+def run_items(texts, make_pass, chunk=60):
+    """texts: one func.func (holding one linalg.generic) each -> per item (before_conv, after_conv).  A pass that raises,
+    or whose result does not verify / cannot be converted, gives after_conv = ('error', message, text) for the items
+    that fail on their own (so that the failure names a concrete program instead of crashing the harness)."""
+    def go(items):
+        mod = parse("builtin.module {\n" + "".join(items) + "}\n")
+        mod.verify()
+        before = [conv_body(g.body.block) for g in generics(mod)]
+        make_pass().apply(xmain().ctx, mod)
+        mod.verify()
+        after = [conv_body(g.body.block) for g in generics(mod)]
+        assert len(before) == len(after) == len(items)
+        return list(zip(before, after))
+    out = []
+    for s0 in range(0, len(texts), chunk):
+        items = texts[s0:s0 + chunk]
+        try:
+            out += go(items)
+        except Exception:
+            for t in items:
+                try:
+                    out += go([t])
+                except Exception as e:
+                    out.append((None, ("error", f"{type(e).__name__}: {str(e)[:300]}", t)))
+    return out
+
+
 def run_recognition(bodies):
     """-> list of (body, before_conv, after_conv)"""
     from snaxc.transforms.convert_linalg_to_kernel import ConvertLinalgToKernel
-    res = []
-    CH = 60
-    for s in range(0, len(bodies), CH):
-        chunk = bodies[s:s + CH]
-        text = "builtin.module {\n" + "".join(body_mlir(b, f"f{i}") for i, b in enumerate(chunk)) + "}\n"
-        mod = parse(text)
-        mod.verify()
-        gs = generics(mod)
-        before = [conv_body(g.body.block) for g in gs]
-        ConvertLinalgToKernel().apply(xmain().ctx, mod)
-        mod.verify()
-        gs = generics(mod)
-        after = [conv_body(g.body.block) for g in gs]
-        assert len(before) == len(after) == len(chunk)
-        res += list(zip(chunk, before, after))
-    return res
+    r = run_items([body_mlir(b, f"f{i}") for i, b in enumerate(bodies)], ConvertLinalgToKernel)
+    return [(b, bf, af) for b, (bf, af) in zip(bodies, r)]
 
 
 def kernel_text(kname, tys, name):
@@ -408,17 +431,85 @@ def kernel_cfgs(ctx):
 
 def run_expansion(cfgs):
     from snaxc.transforms.convert_kernel_to_linalg import ConvertKernelToLinalg
-    text = "builtin.module {\n" + "".join(kernel_text(k, tys, f"f{i}") for i, (k, tys) in enumerate(cfgs)) + "}\n"
-    mod = parse(text)
-    mod.verify()
-    ConvertKernelToLinalg().apply(xmain().ctx, mod)
-    mod.verify()
-    gs = generics(mod)
-    assert len(gs) == len(cfgs)
-    return [conv_body(g.body.block) for g in gs]
+    return [af for _, af in run_items([kernel_text(k, tys, f"f{i}") for i, (k, tys) in enumerate(cfgs)], ConvertKernelToLinalg, 200)]
 
 
-def rescale_text(p, name):
+# kernel ops with arbitrary wiring --------------------------------------------------------------
+# kb = (argtys, kname, kres, operand block-arg indices, yielded: [None | block-arg index])
+
+
+def kb_text(kb, name):
+    argtys, kname, kres, ko, ky = kb
+    n = len(argtys)
+    args = [f"%x{i}" for i in range(n)]
+    o = [args[i] for i in ko]
+    t = [f"i{argtys[i]}" for i in ko]
+    if kname == "qmac":
+        kop = f"%k = kernel.qmac {o[0]}, {o[1]} zp_lhs : {o[2]} zp_rhs : {o[3]} : {t[0]}, {t[1]}, {t[2]}, {t[3]} -> i{kres}"
+    else:
+        kop = f"%k = kernel.{kname} {o[0]}, {o[1]} : {t[0]}, {t[1]} -> i{kres}"
+    y = "%k" if ky[0] is None else args[ky[0]]
+    mems = [f"memref<8xi{t_}>" for t_ in argtys]
+    fargs = ", ".join(f"%m{i} : {mems[i]}" for i in range(n))
+    maps = ", ".join(["affine_map<(d0) -> (d0)>"] * n)
+    ins = ", ".join(f"%m{i}" for i in range(n - 1))
+    return (f"  func.func @{name}({fargs}) {{\n"
+            f"    linalg.generic {{indexing_maps = [{maps}], iterator_types = [\"parallel\"]}} "
+            f"ins({ins} : {', '.join(mems[:-1])}) outs(%m{n - 1} : {mems[-1]}) {{\n"
+            f"    ^bb0({', '.join(f'{args[i]} : i{argtys[i]}' for i in range(n))}):\n"
+            f"      {kop}\n      linalg.yield {y} : i{argtys[-1]}\n    }}\n    func.return\n  }}\n")
+
+
+def kb_lit(kb):
+    argtys, kname, kres, ko, ky = kb
+    return (f"(mkKBody {coqlist(zlit(t) for t in argtys)} {ktag(kname)} {zlit(kres)} {coqlist(str(i) for i in ko)} "
+            f"{coqlist('None' if y is None else f'(Some {y})' for y in ky)})")
+
+
+def gen_kbodies(ctx):
+    """kernel ops reading permuted / duplicated block arguments, extra unused block arguments, bodies that yield a
+    block argument instead of the kernel result - and the canonical wiring of every configuration"""
+    rng = ctx.rng
+    out = []
+    cfgs = kernel_cfgs(ctx)
+    for k, tys in cfgs:
+        out.append((list(tys), k, tys[-1], list(range(len(tys) - 1)), [None]))
+    for _ in range(ctx.n(160, 1500)):
+        k, tys = rng.choice(cfgs)
+        nop = len(tys) - 1
+        argtys = list(tys[:-1])
+        # extra (unused) inputs
+        for _ in range(rng.choice([0, 0, 1, 2])):
+            argtys.insert(rng.randrange(len(argtys) + 1), rng.choice(WIDTHS + [tys[0], tys[-1]]))
+        argtys.append(tys[-1])
+        ko = []
+        for j in range(nop):
+            cands = [i for i, t in enumerate(argtys) if t == tys[j]]
+            ko.append(rng.choice(cands))
+        r = rng.random()
+        if r < 0.7:
+            ky = [None]
+        else:
+            ky = [rng.choice([i for i, t in enumerate(argtys) if t == argtys[-1]])]
+        out.append((argtys, k, tys[-1], ko, ky))
+    seen, res = set(), []
+    for kb in out:
+        key = json.dumps(kb)
+        if key not in seen:
+            seen.add(key)
+            res.append(kb)
+    return res
+
+
+def run_kbodies(kbs):
+    from snaxc.transforms.convert_kernel_to_linalg import ConvertKernelToLinalg
+    return [af for _, af in run_items([kb_text(kb, f"f{i}") for i, kb in enumerate(kbs)], ConvertKernelToLinalg, 80)]
+
+
+def rescale_text(p, name, outw=8):
+    if outw != 8:
+        return rescale_text(p, name).replace("memref<8xi8>", f"memref<8xi{outw}>").replace("%x1 : i8", f"%x1 : i{outw}") \
+            .replace("-> i8", f"-> i{outw}").replace("%k : i8", f"%k : i{outw}")
     attrs = (f"input_zp = {p['zp_in']} : i32, output_zp = {p['zp_out']} : i32, multiplier = array<i32: {', '.join(map(str, p['mults']))}>, "
              f"shift = array<i32: {', '.join(map(str, p['shifts']))}>, max_int = {p['max']} : i32, min_int = {p['min']} : i32, "
              f"double_round = {'true' if p['dr'] else 'false'}")
@@ -444,16 +535,9 @@ def gen_rparams(rng, n):
     return out
 
 
-def run_rescale(ps):
+def run_rescale(ps, outw=8):
     from snaxc.transforms.convert_kernel_to_linalg import ConvertKernelToLinalg
-    text = "builtin.module {\n" + "".join(rescale_text(p, f"f{i}") for i, p in enumerate(ps)) + "}\n"
-    mod = parse(text)
-    mod.verify()
-    ConvertKernelToLinalg().apply(xmain().ctx, mod)
-    mod.verify()
-    gs = generics(mod)
-    assert len(gs) == len(ps)
-    return [conv_body(g.body.block) for g in gs]
+    return [af for _, af in run_items([rescale_text(p, f"f{i}", outw) for i, p in enumerate(ps)], ConvertKernelToLinalg, 200)]
 
 
 def rp_lit(p):
@@ -526,6 +610,10 @@ def gen_dispatch_cases(ctx):
                 n = 5 if k == "qmac" else 3
                 w = rng.choice(WIDTHS)
                 tys = [w] * n if rng.random() < 0.5 else [rng.choice([8, 32, 64]) for _ in range(n)]
+                if rng.random() < 0.12:
+                    # a mis-declared table entry (too short / too long): zip(strict=True) raises only when no
+                    # mismatch is found before the shorter list ends
+                    tys = tys[:-1] if rng.random() < 0.6 else tys + [rng.choice(WIDTHS)]
                 tab.append((k, tys))
             tabs.append((f"acc{ai}", tab))
             objs.append(FakeAcc(f"acc{ai}", tuple(SupportedKernel(kc[k], [IntegerType(t) for t in tys]) for k, tys in tab)))
@@ -533,7 +621,8 @@ def gen_dispatch_cases(ctx):
         allk = [kt for _, tab in tabs for kt in tab]
         if allk and rng.random() < 0.8:
             k, tys = rng.choice(allk)
-            tys = list(tys)
+            n = 5 if k == "qmac" else 3
+            tys = (list(tys) + [tys[-1]] * n)[:n]   # the query itself always has the arity of the kernel op
             if rng.random() < 0.4:
                 tys[rng.randrange(len(tys))] = rng.choice(WIDTHS)
         else:
@@ -580,6 +669,9 @@ def correspondence(ctx):
     ctx.extra["_rec"] = rec
     cases, meta = [], []
     for b, before, after in rec:
+        if after[0] == "error":
+            dis.append({"name": "L1:pass-failed", "body": b, "error": after[1], "program": after[2]})
+            continue
         if before[0] != "body" or before[1] != (b[0], b[1], b[2]):
             dis.append({"name": "L1:converter-roundtrip", "body": b, "converted": str(before)[:300]})
             continue
@@ -602,13 +694,29 @@ def correspondence(ctx):
     ecases = []
     for (k, tys), conv in zip(cfgs, exp):
         if conv[0] != "body":
-            dis.append({"name": "L1:not-expanded", "kernel": k, "tys": tys})
+            dis.append({"name": "L1:not-expanded", "kernel": k, "tys": tys, **({"error": conv[1], "program": conv[2]} if conv[0] == "error" else {})})
             continue
         ecases.append(f"({ktag(k)}, {coqlist(zlit(t) for t in tys)}, {body_lit(conv[1])})")
         ctx.count({"L1": "expand", "kernel": k, "tys": tys}, True, f"exp{k}{tys}", "expand-" + k)
     texts.append(HEADER + f"Definition cases : list (kernel * list Z * body) := {coqlist(ecases)}.\n"
                  "Eval vm_compute in failing (fun c : kernel * list Z * body => match c with (k, tys, b) => "
                  "body_eqb_full (equivalent_region k tys) b && well_typed k tys end) cases.\n")
+    # (2b) expansion of kernel ops with arbitrary wiring (permuted / duplicated operands, other yields)
+    kbs = gen_kbodies(ctx)
+    kex = run_kbodies(kbs)
+    ctx.extra["_kbs"] = list(zip(kbs, kex))
+    kcases, kmeta = [], []
+    for kb, conv in zip(kbs, kex):
+        canonical = kb[3] == list(range(len(kb[0]) - 1)) and kb[4] == [None]
+        ctx.count({"L1": "expand-wired", "kbody": kb}, not canonical, "kb" + json.dumps(kb), "expand-wired-" + ("canonical" if canonical else "other"))
+        if conv[0] != "body":
+            dis.append({"name": "L1:not-expanded", "kbody": kb, **({"error": conv[1], "program": conv[2]} if conv[0] == "error" else {})})
+            continue
+        kcases.append(f"({kb_lit(kb)}, {body_lit(conv[1])})")
+        kmeta.append({"kbody": kb, "real": conv[1]})
+    texts.append(HEADER + f"Definition cases : list (kbody * body) := {coqlist(kcases)}.\n"
+                 "Eval vm_compute in failing (fun c : kbody * body => body_eqb_full (expand_kbody (fst c)) (snd c) "
+                 "&& well_typed (kk (fst c)) (ktys (fst c))) cases.\n")
     # (3) rescale expansion
     ps = gen_rparams(ctx.rng, ctx.n(40, 400))
     rex = run_rescale(ps)
@@ -619,6 +727,16 @@ def correspondence(ctx):
         ctx.count({"L1": "rescale", "params": p}, True, json.dumps(p), "rescale-expand")
     texts.append(HEADER + f"Definition cases : list (rparams * body) := {coqlist(rcases)}.\n"
                  "Eval vm_compute in failing (fun c : rparams * body => body_eqb_full (rescale_region (fst c)) (snd c)) cases.\n")
+    # (3b) the same for kernel.rescale (i32) -> i32: LowerRescale ignores the result type (known finding F-C18-3)
+    ps32 = ps[:2] + [W32["params"]] + ps[2:ctx.n(10, 60)]
+    rex32 = run_rescale(ps32, 32)
+    ctx.extra["_res32"] = list(zip(ps32, rex32))
+    r32cases = []
+    for p_, conv in zip(ps32, rex32):
+        r32cases.append(f"({rp_lit(p_)}, {body_lit(conv[1]) if conv[0] == 'body' else 'mkBody [] [] []'})")
+        ctx.count({"L1": "rescale-i32", "params": p_}, True, "r32" + json.dumps(p_), "rescale-expand-i32")
+    texts.append(HEADER + f"Definition cases : list (rparams * body) := {coqlist(r32cases)}.\n"
+                 "Eval vm_compute in failing (fun c : rparams * body => body_eqb_full (rescale_region_for 32%Z (fst c)) (snd c)) cases.\n")
     # (4) dispatch
     dcases, dmeta = [], []
     dsp = gen_dispatch_cases(ctx)
@@ -653,8 +771,12 @@ def correspondence(ctx):
     for idx in lists[nrec]:
         dis.append({"name": "L1:equivalent_region", "case": ecases[idx][:400]})
     for idx in lists[nrec + 1]:
-        dis.append({"name": "L1:rescale_region", "params": ps[idx]})
+        dis.append({"name": "L1:expand_kbody", **kmeta[idx]})
     for idx in lists[nrec + 2]:
+        dis.append({"name": "L1:rescale_region", "params": ps[idx]})
+    for idx in lists[nrec + 3]:
+        dis.append({"name": "L1:rescale_region_i32", "params": ps32[idx]})
+    for idx in lists[nrec + 4]:
         dis.append({"name": "L1:dispatch", **dmeta[idx]})
     for k in list(ctx.extra):
         if k.startswith("_"):
@@ -776,6 +898,9 @@ def search(ctx, deep=False):
     # (1) recognised bodies and (2) expanded kernels: evaluate the real body against the kernel formula
     items, meta = [], []
     for b, before, after in rec:
+        if after[0] == "error":
+            fails.append({"what": "recognition-pass-failed", "klass": None, "body": b, "error": after[1], "program": after[2]})
+            continue
         if after[0] == "kernel" and before[0] == "body":
             ins = scalars(rng, b[0], nin)
             items.append(f"({body_lit(before[1])}, {KNAMES[after[1]]}, {vlib.zlistlist(ins)})")
@@ -786,7 +911,7 @@ def search(ctx, deep=False):
     exp = getattr(ctx, "c18_exp", None) or list(zip(kernel_cfgs(ctx), run_expansion(kernel_cfgs(ctx))))
     for (k, tys), conv in exp:
         if conv[0] != "body":
-            fails.append({"what": "kernel-not-expanded", "klass": None, "kernel": k, "tys": tys})
+            fails.append({"what": "kernel-not-expanded", "klass": None, "kernel": k, "tys": tys, **({"error": conv[1], "program": conv[2]} if conv[0] == "error" else {})})
             continue
         ins = scalars(rng, tys, nin)
         items.append(f"({body_lit(conv[1])}, {ktag(k)}, {vlib.zlistlist(ins)})")
@@ -795,15 +920,39 @@ def search(ctx, deep=False):
     SH = 200
     texts = [HEADER + f"Definition cases : list (body * kernel * list (list Z)) := {coqlist(items[s:s + SH])}.\nEval vm_compute in failing ({L2_KTEST}) cases.\n"
              for s in range(0, len(items), SH)]
+    # (2b) kernel ops with arbitrary wiring: the real expanded body against the kernel formula on the values the kernel
+    # op read and the values the body yielded (eval_kbody), no model of the pass involved
+    kbx = getattr(ctx, "c18_kbs", None)
+    if kbx is None or deep:
+        kbs = gen_kbodies(ctx)
+        kbx = list(zip(kbs, run_kbodies(kbs)))
+    kitems, kmeta = [], []
+    for kb, conv in kbx:
+        if conv[0] != "body":
+            fails.append({"what": "kernel-not-expanded", "klass": None, "kbody": kb, **({"error": conv[1], "program": conv[2]} if conv[0] == "error" else {})})
+            continue
+        ins = scalars(rng, kb[0], max(4, nin // 2))
+        kitems.append(f"({body_lit(conv[1])}, {kb_lit(kb)}, {vlib.zlistlist(ins)})")
+        kmeta.append({"what": "expanded-wired-body-differs-from-kernel", "kbody": kb, "body": conv[1], "inputs": ins, "program": kb_text(kb, "f")})
+        ctx.count({"L2": "expanded-wired", "kbody": kb}, True, "l2kb" + json.dumps(kb), "L2-expanded-wired")
+    KSH = 300
+    ktexts = [HEADER + f"Definition cases : list (body * kbody * list (list Z)) := {coqlist(kitems[s:s + KSH])}.\n"
+              "Eval vm_compute in failing (fun c : body * kbody * list (list Z) => match c with (b, kb, ins) => "
+              "forallb (fun a => list_eqb Z.eqb (eval_body b a) (eval_kbody kb a)) ins end) cases.\n"
+              for s in range(0, len(kitems), KSH)]
     # (3) rescale vs golden model
     res = getattr(ctx, "c18_res", None)
     if res is None or deep:
         ps = gen_rparams(rng, ctx.n(40, 400))
         res = list(zip(ps, run_rescale(ps)))
+    res32 = getattr(ctx, "c18_res32", None)
+    if res32 is None or deep:
+        ps32 = [W32["params"]] + gen_rparams(rng, ctx.n(8, 60))
+        res32 = list(zip(ps32, run_rescale(ps32, 32)))
     ritems, rmeta = [], []
-    for p, conv in res:
+    for outw, (p, conv) in [(8, pc) for pc in res] + [(32, pc) for pc in res32]:
         if conv[0] != "body":
-            fails.append({"what": "rescale-not-expanded", "klass": None, "params": p})
+            fails.append({"what": "rescale-not-expanded", "klass": None, "params": p, **({"error": conv[1], "program": conv[2]} if conv[0] == "error" else {})})
             continue
         xs = [0, 1, -1, 2, 3, 127, -128, 255, 70000, -70000, (1 << 31) - 1, -(1 << 31), 12345, -54321] + [rng.randrange(-(1 << 20), 1 << 20) for _ in range(6)]
         for x in xs:
@@ -815,22 +964,33 @@ def search(ctx, deep=False):
             # per-channel parameters: the expansion uses channel 0 only (documented); compare channel 0, classify the rest
             gl = "None" if g is None else f"(Some {zlit(g[0])})"
             allsame = g is not None and all(v == g[0] for v in g)
-            ritems.append(f"({body_lit(conv[1])}, {rp_lit(p)}, {zlit(x)}, {gl}, {'true' if (same_ch or allsame) else 'false'})")
-            rmeta.append({"what": "rescale-differs-from-golden", "params": p, "x": x, "golden": g})
-            ctx.count({"L2": "rescale", "params": p, "x": x}, True, None, "L2-rescale")
-    RT = ("fun c : body * rparams * Z * option Z * bool => match c with (b, p, x, g, chan_ok) => "
+            single = len(p["mults"]) == 1 and len(p["shifts"]) == 1
+            ritems.append(f"({body_lit(conv[1])}, {rp_lit(p)}, {zlit(x)}, {gl}, {'true' if (same_ch or allsame) else 'false'}, {zlit(outw)}, {'true' if single else 'false'})")
+            rmeta.append({"what": "rescale-differs-from-golden", "params": p, "x": x, "golden": g, "outw": outw})
+            ctx.count({"L2": "rescale", "params": p, "x": x, "outw": outw}, True, None, "L2-rescale" + ("" if outw == 8 else "-i32"))
+    # codes: 0 ok; 1 real body != model formula; 2 differs from golden inside the safe classes (violation); 3 differs, class
+    # rescale_not_safe (F18); 4 the model's golden_rescale differs from the real numpy golden model (model defect);
+    # 5 result type not i8: the body yields an i8 where the output type is wider (class rescale_result_not_i8, F-C18-3);
+    # 6 ill-typed yield although the result is i8 (violation)
+    RT = ("fun c : body * rparams * Z * option Z * bool * Z * bool => match c with (b, p, x, g, chan_ok, wout, single) => "
           "let r := eval_body b [x; 0%Z] in "
           "if negb (list_eqb Z.eqb r [expand_rescale p x]) then 1 else "
-          "match g with Some gv => if list_eqb Z.eqb r [gv] && chan_ok then 0 else if rescale_safe p x && chan_ok then 2 else 3 "
+          "if single && (1 <=? shift p)%Z && (shift p <=? 64)%Z && negb (match g with Some gv => (golden_rescale p x =? gv)%Z | None => true end) then 4 else "
+          "if negb (yield_typed b) then (if rescale_result_not_i8 wout then 5 else 6) else "
+          "match g with Some gv => if list_eqb Z.eqb r [gv] && chan_ok then 0 else "
+          "if rescale_result_not_i8 wout then 5 else if rescale_safe p x && chan_ok then 2 else 3 "
           "| None => if rescale_safe p x then 2 else 3 end end")
     RSH = 400
-    rtexts = [HEADER + f"Definition cases : list (body * rparams * Z * option Z * bool) := {coqlist(ritems[s:s + RSH])}.\nEval vm_compute in map ({RT}) cases.\n"
+    rtexts = [HEADER + f"Definition cases : list (body * rparams * Z * option Z * bool * Z * bool) := {coqlist(ritems[s:s + RSH])}.\nEval vm_compute in map ({RT}) cases.\n"
               for s in range(0, len(ritems), RSH)]
-    lists = _eval_lists("c18l2_", texts + rtexts)
+    lists = _eval_lists("c18l2_", texts + ktexts + rtexts)
     for si, bad in enumerate(lists[:len(texts)]):
         for idx in bad:
             fails.append({**meta[si * SH + idx], "klass": None})
-    codes = [c for l in lists[len(texts):] for c in l]
+    for si, bad in enumerate(lists[len(texts):len(texts) + len(ktexts)]):
+        for idx in bad:
+            fails.append({**kmeta[si * KSH + idx], "klass": None})
+    codes = [c for l in lists[len(texts) + len(ktexts):] for c in l]
     assert len(codes) == len(ritems)
     for c, m in zip(codes, rmeta):
         if c == 1:
@@ -839,6 +999,12 @@ def search(ctx, deep=False):
             fails.append({**m, "klass": None})
         elif c == 3:
             fails.append({**m, "klass": "rescale_not_safe"})
+        elif c == 4:
+            fails.append({**m, "what": "model-golden_rescale-differs-from-numpy-golden-model", "klass": None})
+        elif c == 5:
+            fails.append({**m, "what": "rescale-result-type-ignored", "klass": "rescale_result_not_i8"})
+        elif c == 6:
+            fails.append({**m, "what": "rescale-body-yield-ill-typed", "klass": None})
     # (4) dispatch: a dispatched kernel is declared by the chosen accelerator (real Python objects)
     dsp = getattr(ctx, "c18_dsp", None)
     if dsp is None or deep:
@@ -873,6 +1039,13 @@ def _dedup(fails):
 def replay_known(ctx, entry):
     w = entry["witness"]
     p = w["params"]
+    if entry["class"] == "rescale_result_not_i8":
+        conv = run_rescale([p], w["outw"])[0]
+        g = golden(p, w["x"])
+        txt = HEADER + (f"Eval vm_compute in (negb (yield_typed {body_lit(conv[1])}) && rescale_result_not_i8 {zlit(w['outw'])} "
+                        f"&& negb (list_eqb Z.eqb (eval_body {body_lit(conv[1])} [{zlit(w['x'])}; 0%Z]) [{zlit(g[0])}])).\n")
+        ok, out = vlib.coq_eval("c18known", txt)
+        return ok and "= true" in out
     conv = run_rescale([p])[0]
     g = golden(p, w["x"])
     txt = HEADER + (f"Eval vm_compute in (negb (list_eqb Z.eqb (eval_body {body_lit(conv[1])} [{zlit(w['x'])}; 0%Z]) [{zlit(g[0])}]) "
@@ -886,7 +1059,14 @@ def replay(ctx, obj):
     if not f:
         print("no failing input recorded; broken obligations:", json.dumps(obj.get("no_longer_checks"), default=str)[:3000])
         return 1
-    print(json.dumps({k: v for k, v in f.items() if k != "inputs"}, default=str)[:2000])
+    print(json.dumps({k: v for k, v in f.items() if k not in ("inputs", "program")}, default=str)[:2000])
+    if f.get("error") and f.get("program"):
+        from snaxc.transforms.convert_kernel_to_linalg import ConvertKernelToLinalg
+        from snaxc.transforms.convert_linalg_to_kernel import ConvertLinalgToKernel
+        print(f["program"])
+        ps_ = ConvertLinalgToKernel if f["what"].startswith("recognition") else ConvertKernelToLinalg
+        print("re-running the pass on this program now gives:", run_items([f["program"]], ps_)[0][1][:2])
+        return 1
     if "body" in f and "kernel" in f and "inputs" in f:
         b = (f["body"][0], [(k, r, [tuple(s) for s in srcs]) for k, r, srcs in f["body"][1]], [tuple(s) for s in f["body"][2]])
         print(body_mlir(b, "replay") if all(o[0] in ARITH or o[0] == "ext" for o in b[1]) else b)
@@ -902,8 +1082,27 @@ def replay(ctx, obj):
             r = run_recognition([b])[0]
             print("convert-linalg-to-kernel on this body now gives:", r[2][:2])
         return 1
+    if "kbody" in f:
+        kb = f["kbody"]
+        kb = (kb[0], kb[1], kb[2], kb[3], kb[4])
+        print(kb_text(kb, "replay"))
+        conv = run_kbodies([kb])[0]
+        print("convert-kernel-to-linalg on this body now gives:", conv[1] if conv[0] == "body" else conv[:2])
+        if conv[0] == "body":
+            txt = HEADER + "".join(f"Eval vm_compute in (eval_body {body_lit(conv[1])} {vlib.zlist(a)}, eval_kbody {kb_lit(kb)} {vlib.zlist(a)}).\n" for a in f["inputs"][:8])
+            ok, out = vlib.coq_eval("c18replay", txt)
+            print("(value of the real expanded body, kernel formula on the values the kernel op read) per input", f["inputs"][:8])
+            print(out[-2500:])
+        return 1
     if "params" in f:
         p = f["params"]
+        if f.get("outw", 8) != 8:
+            conv = run_rescale([p], f["outw"])[0]
+            print("kernel.rescale (i32) -> i%d expands to: %s" % (f["outw"], conv[1]))
+            print("golden:", golden(p, f["x"]))
+            ok, out = vlib.coq_eval("c18replay", HEADER + f"Eval vm_compute in (eval_body {body_lit(conv[1])} [{zlit(f['x'])}; 0%Z], yield_typed {body_lit(conv[1])}).\n")
+            print(out[-800:])
+            return 1
         conv = run_rescale([p])[0]
         print("golden:", golden(p, f["x"]))
         ok, out = vlib.coq_eval("c18replay", HEADER + f"Eval vm_compute in (eval_body {body_lit(conv[1])} [{zlit(f['x'])}; 0%Z], rescale_safe {rp_lit(p)} {zlit(f['x'])}).\n")
